@@ -228,12 +228,12 @@ static void mon_store(void* addr, int order) {
 static void mon_fence(int order) { if (order == mo_seq_cst) mon_unfenced_era_store = 0; }   /* ... and must be followed by a seq_cst fence */
 
 /* ---------------- invariant Inv_K ---------------- */
-unsigned g_pos[NSLOT], g_height;        /* ghost witness of the free chain: height of slot i above the chain end (0 = not on the chain), height of the head */
+unsigned char g_pos[NSLOT], g_height;        /* ghost witness of the free chain: height of slot i above the chain end (0 = not on the chain), height of the head */
 /* Carry the witness over a step.  Pushes and pops happen at the head only: a slot that stays free keeps its height; a slot taken from the
  * chain was the head; a slot that became free is the new head (it inherits the height of a slot taken in the same step).  Anything else
  * (two slots freed at once: initialize, a new block) gets its witness from the harness; otherwise the check below fails. */
 static void witness_sync(void) {
-  unsigned char npop = 0, npush = 0; unsigned popped_h = 0;
+  unsigned char npop = 0, npush = 0, popped_h = 0;
   for (int i = 0; i < NSLOT; i++) {
     if (!slot_live(i)) { g_pos[i] = 0; continue; }
     _Bool free_now = SLOT(i)->guard_cnt == 0;
@@ -259,7 +259,7 @@ static struct inv_res inv_eval(const struct guard* a, const struct guard* b) {
     if ((a && a->he) || (b && b->he)) r.count_ok = 0;
     for (int i = 0; i < NSLOT; i++) if (slot_live(i)) { if (g_others[i] != 0 || SLOT(i)->guard_cnt != 0) r.count_ok = 0; }
     if (g_cb.last_hazard_era != 0) r.rest_ok = 0;
-    for (int i = 0; i < NSLOT; i++) g_pos[i] = i < XV_K ? (unsigned)(XV_K - i) : 0;   /* witness for the chain initialize will build on first use */
+    for (int i = 0; i < NSLOT; i++) g_pos[i] = i < XV_K ? (unsigned char)(XV_K - i) : 0;   /* witness for the chain initialize will build on first use */
     g_height = XV_K;
     return r;
   }
@@ -368,7 +368,7 @@ static void havoc_state(const struct guard* a, const struct guard* b) {
     in_others[i] = nondet_u64(); in_era[i] = nondet_u64(); in_link[i] = nondet_uint(); in_mark[i] = nondet_bool();
     XV_ASSUME(in_era[i] < ERA_MAX && in_others[i] < CNT_MAX);   /* fewer than 2^62 guard objects */
     g_others[i] = slot_live(i) ? in_others[i] : 0;
-    SLOT(i)->guard_cnt = nondet_u64(); g_pos[i] = nondet_uint(); g_height = nondet_uint();
+    SLOT(i)->guard_cnt = nondet_u64(); g_pos[i] = nondet_uchar(); g_height = nondet_uchar();
     SLOT(i)->value.mark = in_mark[i];
     SLOT(i)->value.lp = slot_of(in_link[i]);
     SLOT(i)->value.w = in_mark[i] ? nondet_uptr() : (uintptr_t)(in_era[i] << 1);
@@ -398,9 +398,9 @@ static void chk_exit(const struct guard* a, const struct guard* b) {
 #define XV_HAVOC_ACQ acq_havoc(); XV_ASSUME(xv_clock < CNT_MAX && mon_src_loads < CNT_MAX && mon_era_loads < CNT_MAX); self->he = any_slot_or_null(); self->ptr = nondet_uptr(); prev_era = nondet_u64()
 static void acq_havoc(void) {
   for (int i = 0; i < NSLOT; i++) {
-    SLOT(i)->guard_cnt = nondet_u64(); SLOT(i)->value.mark = nondet_bool(); SLOT(i)->value.lp = any_slot_or_null(); SLOT(i)->value.w = nondet_uptr(); g_pos[i] = nondet_uint();
+    SLOT(i)->guard_cnt = nondet_u64(); SLOT(i)->value.mark = nondet_bool(); SLOT(i)->value.lp = any_slot_or_null(); SLOT(i)->value.w = nondet_uptr(); g_pos[i] = nondet_uchar();
   }
-  g_height = nondet_uint();
+  g_height = nondet_uchar();
   g_cb.last_hazard_era = any_slot_or_null(); g_cb.last_era = nondet_u64();
   g_td.hint = any_slot_or_null(); g_td.control_block = nondet_bool() ? &g_cb : (struct tcb*)0;
   g_number_of_active_hes = nondet_size(); g_acquire_entry_calls = nondet_uint();
@@ -517,7 +517,7 @@ static void h_initialize(void) {
   cb_initialize(&g_cb, &g_td.hint);
   g_td.control_block = &g_cb; g_cb.last_hazard_era = 0;
   /* expected chain: the record's own K slots, then the blocks from the newest to the oldest, each in address order */
-  { unsigned h = XV_K;
+  { unsigned char h = XV_K;
 #ifdef XV_DYN
     h = XV_K * (1 + g_nblk);
 #endif
@@ -584,8 +584,8 @@ static void h_dyn_alloc(void) {
     XV_OBL("he.dyn.new_block", r == &g_new.slots[0] && r->guard_cnt == 1 && g_td.hint == (hes > 1 ? &g_new.slots[1] : (struct hazard_era*)0));
     _Bool old_same = 1; for (int i = 0; i < 3 * XV_K; i++) if (slot_live(i)) old_same = old_same && slot_same(i);
     XV_OBL("he.dyn.new_block", old_same);
-    for (int j = 0; j < XV_NEWMAX; j++) g_pos[3 * XV_K + j] = (size_t)j < hes && j > 0 ? (unsigned)(hes - j) : 0;    /* witness for the chain of the new block */
-    g_height = (unsigned)(hes - 1);
+    for (int j = 0; j < XV_NEWMAX; j++) g_pos[3 * XV_K + j] = (size_t)j < hes && j > 0 ? (unsigned char)(hes - j) : 0;    /* witness for the chain of the new block */
+    g_height = (unsigned char)(hes - 1);
     XV_CANARY("dyn.new_block");
   } else {
     XV_OBL("he.dyn.new_block", !g_new_used && g_cb.total_number_of_hes == total0 && g_cb.he_block == head0 && g_number_of_active_hes == pre_active && slots_same_except(r));
